@@ -91,6 +91,11 @@ type exRes struct {
 }
 
 func (c *c03) extract(tp string, hasTS bool, ts string) (res exRes) {
+	return c.extractInto(c.base, tp, hasTS, ts)
+}
+
+// extractInto extracts into a given context (the standard one carries a stale, unrelated span).
+func (c *c03) extractInto(base context.Context, tp string, hasTS bool, ts string) (res exRes) {
 	carrier := propagation.MapCarrier{"traceparent": tp}
 	if hasTS {
 		carrier["tracestate"] = ts
@@ -101,9 +106,9 @@ func (c *c03) extract(tp string, hasTS bool, ts string) (res exRes) {
 		}
 	}()
 	c.r.Eval()
-	out := c.prop.Extract(c.base, carrier)
+	out := c.prop.Extract(base, carrier)
 	res.out = out
-	if out == c.base {
+	if out == base {
 		return res
 	}
 	res.accepted = true
@@ -1146,6 +1151,23 @@ func (c *c03) roundTripTID(tid trace.TraceID, lists []tsCase) {
 					}
 					if back := walk(got.TraceState()); !sameList(back, lc.l) {
 						r.FailHere("roundtrip-tracestate|"+lc.class, d(), "tracestate %s came back as %s", showList(lc.l), showList(back))
+					}
+					// What Extract returns is a function of the carrier, not of what the context held before:
+					// (1) into the very context the headers were injected from (it names the same span, as a
+					// local or remote one), (2) into the context of the first extraction after the sender
+					// flipped the sampled flag and dropped the tracestate.
+					if again := c.extractInto(trace.ContextWithSpanContext(context.Background(), sc), inj.tp, inj.hasTS, inj.ts); again.panicked == nil {
+						g2 := trace.SpanContextFromContext(again.out)
+						if !g2.Equal(got) {
+							r.FailHere("extract-depends-on-prior-context|same span already in the context", d(), "extracting into the context the headers were injected from gives %+v, into another context %+v", g2, got)
+						}
+					}
+					flipped := refInject(tid, sid, !sampled)
+					if again := c.extractInto(res.out, flipped, false, ""); again.panicked == nil {
+						g3 := trace.SpanContextFromContext(again.out)
+						if g3.TraceID() != tid || g3.SpanID() != sid || g3.IsSampled() == sampled || !g3.IsRemote() || g3.TraceState().Len() != 0 {
+							r.FailHere("extract-depends-on-prior-context|second extraction with other flags and tracestate", d(), "after a first extraction, extracting traceparent=%s (no tracestate) gives sampled=%v remote=%v tracestate=%q", flipped, g3.IsSampled(), g3.IsRemote(), g3.TraceState().String())
+						}
 					}
 				}
 			}
